@@ -244,6 +244,51 @@ def instrument_case(cls_name):
         c.check("first column is the requested initial state", api.eq(val(elem(p.spot, 0, 0)), init[0]))
         if len(d) > 1 and "variance" in second:
             c.check("initial variance is the requested one", api.eq(val(elem(second["variance"], 0, 0)), init[1]))
+        if hasattr(p, "variance") and hasattr(p, "volatility"):
+            # ... and a third time with the *same* shape: nothing derived from the previous paths may survive (a volatility cached
+            # per shape would)
+            _ = p.volatility
+            init3 = (api.real(c, "s0b", pos=True),) + tuple(api.real(c, "j%d" % k, pos=True) for k in range(1, len(d)))
+            p.simulate(n_paths=1, time_horizon=0.5, init_state=init3)
+            for i in range(2):
+                vo, va = val(elem(p.volatility, 0, i)), val(elem(p.variance, 0, i))
+                c.check("after a same-shape re-simulation: volatility = sqrt(variance) [0,%d]" % i,
+                        api.all_(api.ge(vo, 0), api.eq(vo * vo, api.maxv(va, 0))))
+            c.check("after a same-shape re-simulation: first column is the new initial state", api.eq(val(elem(p.spot, 0, 0)), init3[0]))
+
+    return fn
+
+
+def derived_state_case(cls_name):
+    """volatility / variance read from an instrument always belong to its *current* buffers: simulate (generator replaced by a stub that
+    returns fresh symbolic series), read the derived quantities, simulate again with the same shape, read again"""
+    import importlib
+
+    from harness.c13 import PRIMARIES, Recorder
+
+    modname, gen, fields = PRIMARIES[cls_name]
+
+    def fn(c):
+        mod = importlib.import_module("pfhedge.instruments.primary." + modname)
+        cls = getattr(mod, cls_name)
+        rec = Recorder(c, fields)
+        old = getattr(mod, gen)
+        setattr(mod, gen, rec)
+        try:
+            with facades.real_torch():
+                p = cls(dt=0.5)
+            for rnd in (1, 2, 3):
+                p.simulate(n_paths=1, time_horizon=0.5)
+                vol, var = p.volatility, p.variance
+                c.check("round %d: shapes" % rnd, tuple(vol.shape) == (1, 2) and tuple(var.shape) == (1, 2))
+                for i in range(2):
+                    va_buf = val(elem(p.get_buffer("variance"), 0, i))
+                    vo, va = val(elem(vol, 0, i)), val(elem(var, 0, i))
+                    c.check("round %d: variance is the current buffer [%d]" % (rnd, i), api.eq(va, va_buf))
+                    c.check("round %d: volatility = sqrt(max(variance, 0)) of the current buffer [%d]" % (rnd, i),
+                            api.all_(api.ge(vo, 0), api.eq(vo * vo, api.maxv(va_buf, 0))))
+        finally:
+            setattr(mod, gen, old)
 
     return fn
 
@@ -267,6 +312,9 @@ def cases():
     for k in ("vasicek", "cir", "geometric_brownian", "brownian", "merton", "kou", "local_volatility"):
         cs.append(Case("tensor-init/%s" % k, tensor_init_case(k), xmode=True, encodes=enc, families=fam, batch=False, timeout=120, max_paths=32,
                        bounds="0-dim tensor initial state re-used for two simulations"))
+    for p in ("HestonStock", "RoughBergomiStock"):
+        cs.append(Case("derived-state/%s" % p, derived_state_case(p), xmode=True, encodes=enc, families=fam, batch=False, timeout=60,
+                       bounds="generator stub with fresh symbolic (spot, variance) series; three simulations of the same shape (1,2)"))
     cs.append(Case("cir/inductive-step", cir_step_case(), xmode=True, encodes=enc, families=fam, batch=False, timeout=120, bounds="one step from any v>=0"))
     for p in PRIMS:
         cs.append(Case("instrument/%s" % p, instrument_case(p), xmode=True, encodes=enc, families=fam, batch=False, timeout=300, max_paths=32,
